@@ -330,16 +330,20 @@ Section WithTables.
   Definition clear_markings (c : carrier) (d : pdict) (now : Z) : result pdict :=
     new_version c d [(omr, PJ JNull)] now.
 
+  (* the outcome of an operation: a new version, the object itself handed back (no version made), or a refusal *)
+  Inductive outcome := New (d : pdict) | Same | Refused (e : string).
+  Definition outcome_of (r : result pdict) : outcome := match r with Ok d => New d | Raise e => Refused e end.
+
   (* remove_markings: no markings -> the object itself (no new version); a marking that is
      not there -> MarkingNotFoundError *)
-  Definition remove_markings (c : carrier) (d : pdict) (ms : list jvalue) (now : Z) : result pdict :=
+  Definition remove_markings (c : carrier) (d : pdict) (ms : list jvalue) (now : Z) : outcome :=
     match marking_list d with
-    | [] => Ok d
+    | [] => Same
     | cur =>
-        if negb (forallb (fun x => jmem x cur) ms) then Raise "MarkingNotFoundError"
+        if negb (forallb (fun x => jmem x cur) ms) then Refused "MarkingNotFoundError"
         else match filter (fun x => negb (jmem x ms)) cur with
-             | [] => new_version c d [(omr, PJ JNull)] now
-             | rest => new_version c d [(omr, PJ (JArr rest))] now
+             | [] => outcome_of (new_version c d [(omr, PJ JNull)] now)
+             | rest => outcome_of (new_version c d [(omr, PJ (JArr rest))] now)
              end
     end.
 
@@ -359,25 +363,37 @@ Section WithTables.
   | OpClearMark (now : Z)
   | OpSetMark (ms : list jvalue) (now1 now2 : Z).
 
-  Definition apply_op (c : carrier) (d : pdict) (o : op) : result pdict :=
+  Definition apply_op (c : carrier) (d : pdict) (o : op) : outcome :=
     match o with
-    | OpNew ch now => new_version c d ch now
-    | OpRevoke now => revoke c d now
-    | OpAddMark ms now => add_markings c d ms now
+    | OpNew ch now => outcome_of (new_version c d ch now)
+    | OpRevoke now => outcome_of (revoke c d now)
+    | OpAddMark ms now => outcome_of (add_markings c d ms now)
     | OpRemoveMark ms now => remove_markings c d ms now
-    | OpClearMark now => clear_markings c d now
-    | OpSetMark ms n1 n2 => set_markings c d ms n1 n2
+    | OpClearMark now => outcome_of (clear_markings c d now)
+    | OpSetMark ms n1 n2 => outcome_of (set_markings c d ms n1 n2)
     end.
 
-  (* every operation is applied to the latest successfully produced version; a refused operation
-     leaves it as it is.  The trace lists the outcome of every operation.     *)
-  Fixpoint run_chain (c : carrier) (d : pdict) (ops : list op) : list (result pdict) :=
+  (* every operation is applied to the latest version; a refused operation leaves it as it is.
+     The trace lists the outcome of every operation.                          *)
+  Fixpoint run_chain (c : carrier) (d : pdict) (ops : list op) : list outcome :=
     match ops with
     | [] => []
     | o :: rest =>
         match apply_op c d o with
-        | Ok d' => Ok d' :: run_chain c d' rest
-        | Raise e => Raise e :: run_chain c d rest
+        | New d' => New d' :: run_chain c d' rest
+        | Same => Same :: run_chain c d rest
+        | Refused e => Refused e :: run_chain c d rest
+        end
+    end.
+
+  (* the versions a chain produces, in order *)
+  Fixpoint new_versions (c : carrier) (d : pdict) (ops : list op) : list pdict :=
+    match ops with
+    | [] => []
+    | o :: rest =>
+        match apply_op c d o with
+        | New d' => d' :: new_versions c d' rest
+        | _ => new_versions c d rest
         end
     end.
 
@@ -430,7 +446,25 @@ Definition pval_eqb (a b : pval) : bool :=
   | _, _ => false
   end.
 
-Definition view (c : carrier) (d : pdict) : pdict := match c with CObject _ => sort_pdict d | _ => d end.
+(* object_marking_refs goes through a Python set in add_markings, whose order is not modelled:
+   it is rendered sorted (lists of strings only) on both sides *)
+Definition jstr_ltb (a b : jvalue) : bool :=
+  match a, b with JStr x, JStr y => ustr_ltb x y | _, _ => false end.
+Fixpoint insert_j (x : jvalue) (l : list jvalue) : list jvalue :=
+  match l with
+  | [] => [x]
+  | y :: r => if jstr_ltb y x then y :: insert_j x r else x :: l
+  end.
+Definition all_str (l : list jvalue) : bool := forallb (fun x => match x with JStr _ => true | _ => false end) l.
+Definition canon_val (k : ustring) (v : pval) : pval :=
+  match v with
+  | PJ (JArr l) => if ustr_eqb k omr && all_str l then PJ (JArr (fold_right insert_j [] l)) else v
+  | _ => v
+  end.
+Definition canon_marks (d : pdict) : pdict := map (fun kv => (fst kv, canon_val (fst kv) (snd kv))) d.
+
+Definition view (c : carrier) (d : pdict) : pdict :=
+  canon_marks (match c with CObject _ => sort_pdict d | _ => d end).
 
 (* what changed from one version to the next: new or changed entries (in the order of the new
    version), then the names that disappeared *)
@@ -447,11 +481,12 @@ Definition sep : string := " | ".
 
 (* one line per chain: the outcome of every operation (as a difference to the version it was
    applied to), then the complete last version *)
-Fixpoint show_steps (c : carrier) (cur : pdict) (tr : list (result pdict)) : string :=
+Fixpoint show_steps (c : carrier) (cur : pdict) (tr : list outcome) : string :=
   match tr with
   | [] => append "FINAL " (show_pdict (view c cur))
-  | Ok d :: rest => append "OK " (append (show_diff (view c cur) (view c d)) (append sep (show_steps c d rest)))
-  | Raise e :: rest => append "EXC " (append e (append sep (show_steps c cur rest)))
+  | New d :: rest => append "OK " (append (show_diff (view c cur) (view c d)) (append sep (show_steps c d rest)))
+  | Same :: rest => append "OK " (append sep (show_steps c cur rest))
+  | Refused e :: rest => append "EXC " (append e (append sep (show_steps c cur rest)))
   end.
 
 Definition show_chain (T : vtables) (nm : naive_mode) (c : carrier) (d : pdict) (ops : list op) : string :=
